@@ -99,8 +99,14 @@ def main():
     # ---- 2. Go drivers ---------------------------------------------------------------------
     ctx.bins = {}
     go_broken = None
+    cover = tier == "thorough" and os.environ.get("VERIF_NO_COVER") != "1"
+    cdir = None
+    if cover:
+        import tempfile
+        cdir = tempfile.mkdtemp(prefix="verif_cover_")
+        os.environ["VERIF_COVERDIR"] = cdir
     for h in getattr(mod, "HARNESS", []):
-        ok, binp, out = vlib.build_go(h)
+        ok, binp, out = vlib.build_go(h, cover=cover)
         if not ok:
             go_broken = "go build of /repo with harness %s failed:\n%s" % (h, out[-3000:])
             break
@@ -119,6 +125,21 @@ def main():
             log(tb)
             rep.violation({"property": pid, "broken": "check machinery raised", "trace": tb}, False,
                           "check raised an exception")
+
+    if cdir:
+        try:
+            anchors = []
+            for l in open(os.path.join(vlib.VERIF, "properties.jsonl")):
+                pj = json.loads(l)
+                if pj["id"] == pid:
+                    anchors = pj.get("anchors", {}).get("files", [])
+            cs = vlib.coverage_summary(cdir, anchors)
+            if cs:
+                rep.coverage["go_statement_coverage_of_this_run"] = cs
+        finally:
+            import shutil
+            shutil.rmtree(cdir, ignore_errors=True)
+            os.environ.pop("VERIF_COVERDIR", None)
 
     # ---- 4. verdict -------------------------------------------------------------------------
     if result is not None:
